@@ -18,6 +18,30 @@ pub mod zvt_builder {
         fn zvt_deserialize(bytes: &[u8]) -> (r: ZVTResult<(Self, &[u8])>)
             ensures r matches Ok((v, rest)) ==> Self::zd_ok(bytes@, v);
     }
+    // the rest of the zvt_builder surface a (changed) parser may name: abstract, nothing is known about results
+    pub mod length {
+        pub trait Length {}
+        pub struct Empty; pub struct Adpu; pub struct Tlv;
+        pub struct Fixed<const N: usize>; pub struct Llv; pub struct Lllv;
+        impl Length for Empty {} impl Length for Adpu {} impl Length for Tlv {}
+        impl<const N: usize> Length for Fixed<N> {} impl Length for Llv {} impl Length for Lllv {}
+    }
+    pub mod encoding {
+        pub trait Encoding<T> {}
+        pub struct Default; pub struct BigEndian; pub struct Bcd; pub struct Hex; pub struct Utf8;
+        impl<T> Encoding<T> for Default {} impl<T> Encoding<T> for BigEndian {} impl<T> Encoding<T> for Bcd {}
+        impl<T> Encoding<T> for Hex {} impl<T> Encoding<T> for Utf8 {}
+    }
+    pub trait ZvtSerializerImpl<L: length::Length = length::Empty, E: encoding::Encoding<Self> = encoding::Default, TE: encoding::Encoding<Tag> = encoding::Default>: Sized {
+        fn deserialize_tagged(bytes: &[u8], tag: Option<Tag>) -> (r: ZVTResult<(Self, &[u8])>);
+        fn serialize_tagged(&self, tag: Option<Tag>) -> (r: Vec<u8>);
+    }
+    impl<T: ZvtSerializer, L: length::Length, E: encoding::Encoding<T>, TE: encoding::Encoding<Tag>> ZvtSerializerImpl<L, E, TE> for T {
+        #[verifier::external_body]
+        fn deserialize_tagged(bytes: &[u8], tag: Option<Tag>) -> (r: ZVTResult<(Self, &[u8])>) { unimplemented!() }
+        #[verifier::external_body]
+        fn serialize_tagged(&self, tag: Option<Tag>) -> (r: Vec<u8>) { unimplemented!() }
+    }
     pub trait ZvtParser: Sized {
         spec fn parse_ok(b: Seq<u8>, v: Self) -> bool;
         spec fn ctrl_known(c: u8, i: u8) -> bool;
